@@ -21,6 +21,12 @@ _SM = ("Model checking of an explicit state machine (spec/abs/RaggedHeap.tla): l
        "alphabet is replayed into the real code, and deeper random programs recorded from the real code are validated step by step by TLC (trace validation), "
        "observing every live handle after every step. Right level because the property quantifies over programs / histories and over every position of an "
        "inserted read - an interleaving quantifier that a state machine with Read as a free action expresses directly.")
+_RL = ("Model checking of the level-A specification of run-length arrays: an encoding DENOTES a dense sequence, every operation is specified on the dense "
+       "sequence (Python/numpy semantics), and the encoding promises (Consistent, Canonical, NoAdjEq where promised, lock-step) are predicates evaluated on the "
+       "run boundaries / run values of every run-length object the library returns. TLC enumerates all dense sequences up to the bound over a small value set "
+       "per dtype - i.e. every run layout and every relative alignment of two operands' boundaries - crossed with the argument grammar; every claimed state is "
+       "executed against the real classes; seeded traces (longer arrays, all dtypes, NaN) are validated by TLC. Right level: a functional equivalence between "
+       "an encoded and a dense computation with rich case analysis at run boundaries, exhaustively explorable at small scope.")
 _HM = ("Model checking of an explicit state machine (spec/abs/HashTable.tla): level A is a dictionary over a fixed key set (keys opaque), level M the "
        "bucket layout, in-bucket offsets, the lazy scalar-or-array value state and the four branches of Counter.count; TLC checks that M denotes A after every "
        "step of every history of the bounded alphabet (key sets with negative keys, all-collide and empty-bucket moduli, three initial-value kinds), that the "
@@ -32,6 +38,7 @@ CLAIMED = {
     "C07": ("5 C07", _FN), "C08": ("5 C08", _FN), "C09": ("5 C09", _FN),
     "C06": ("5 C06, 3.3", _SM), "C10": ("5 C10, 3.3", _SM),
     "C11": ("5 C11, 3.3", _HM), "C12": ("5 C12, 3.3", _HM),
+    "C14": ("5 C14", _RL), "C15": ("5 C15", _RL), "C16": ("5 C16", _RL), "C17": ("5 C17", _RL),
     "C19": ("5 C19", "Model checking + conformance under both configurations: the specification has no index-width variable, so every TLC-generated case of the "
             "C01-C09 instances and every program of the heap machine has ONE expected outcome; each is executed under ViewBase.set_dtype(int64) and (int32) in "
             "the same process and the two projected outcomes must agree in everything the source property claims; seeded driver events are run under both "
